@@ -23,10 +23,10 @@ CLAIMED = {
  "C14": ("SSA freshness over the Assoc/Dissoc call tree and element-variable code (FRESH); def-use check that the head variable is set only from the Assoc/Dissoc chain (ASSOC-CHAIN)",
          "Structural lemma: element assignment/deletion reaches containers only through vals.Index/Assoc/Dissoc, none of which (nor the persistent packages under them) writes into non-fresh memory, and the head variable is rebound only to the chain's result. That exactly the addressed element changes is not decided.",
          "trusts go/ssa; user-defined Assocer implementations outside pkg/eval/vals are not followed"),
- "C17": ("interprocedural taint from script-controlled values to panic-prone operations with dominating-guard facts (PANIC-SINK); variadic-argument index check (VARIADIC-INDEX)",
-         "Structural necessary condition for the no-panic clause: no value chosen by the script (command arguments and options, redirection fds, input values, evaluated expressions) reaches an index, slice bound, make size, integer divisor, signed shift, unchecked type assertion or argument-panicking library call unless checks on every path establish that it is safe; audited exceptions are listed with reasons. Nil dereferences, resource exhaustion and the no-hang clause are not decided.",
+ "C17": ("interprocedural taint from script-controlled values to panic-prone operations with dominating-guard facts (PANIC-SINK); variadic-argument index check (VARIADIC-INDEX); lock-region check on writes to package-level maps (GLOBAL-MAP-WRITE) and write-under-read-lock contradiction rule (RLOCK-WRITE)",
+         "Structural necessary condition for the no-panic clause: package-level maps are written after initialisation only under a write lock and nothing is written under a read lock (unsynchronised map writes abort the process); no value chosen by the script (command arguments and options, redirection fds, input values, evaluated expressions) reaches an index, slice bound, make size, integer divisor, signed shift, unchecked type assertion or argument-panicking library call unless checks on every path establish that it is safe; audited exceptions are listed with reasons. Nil dereferences, resource exhaustion and the no-hang clause are not decided.",
          "trusts go/ssa, the curated library-sink table and the audit table (sa/internal/rules/c17.go); guard facts assume loads of the same field between a check and its use see the same value"),
- "C18": ("who-may-send ownership check on pipeline value channels (SEND-OWN), ordering/pairing on the per-form function's CFG (STOP-ORDER), literal check (SENDERR-NONNIL), def-use check of the exception slice (ALL-EXC), early-exit-before-join pattern (NO-JOIN-ON-EARLY-EXIT)",
+ "C18": ("who-may-send ownership check on pipeline value channels (SEND-OWN), ordering/pairing on the per-form function's CFG (STOP-ORDER), literal check (SENDERR-NONNIL), def-use check of the exception slice (ALL-EXC), early-exit-before-join pattern (NO-JOIN-ON-EARLY-EXIT), who-may rule on token-limited readers (INPUT-TO-EOF)",
          "Structural necessary conditions for the reader-gone/no-deadlock and all-exceptions clauses: value sends always watch sendStop; the reader-gone error is published before sendStop is closed; owned ports are closed and wg.Done runs exactly once per form; every form has its own exception slot; no command joins a band-draining goroutine after it may have stopped reading the other band (two known findings: only-values, only-bytes). Delivery order and exactly-once delivery are not decided.",
          "trusts go/ssa; channel provenance is resolved through fields, locals and captured variables, not through arbitrary aliases"),
  "C19": ("dominance checks on the pipeline/chunk CFGs (CANCEL-GATE), must-check-result rule on semaphore.Acquire (ACQUIRE-CHECK), select-shape rule for timer waits (INTERRUPTIBLE-BLOCK), spawn/join pairing for every go statement (JOINED)",
@@ -68,8 +68,8 @@ CLAIMED = {
  "C27": ("dominance of the socket removal by the success edge of Listen (REMOVE-OWN), guard check on every exit of the serve loop (SERVE-WHILE-CLIENTS)",
          "Two structural clauses: the daemon removes only a socket it successfully listened on, and leaves its serve loop only on a signal or when no client is connected, with the connection set touched only by the loop. The cross-process activation races are explicitly not decided.",
          "trusts go/ssa"),
- "C31": ("constant/provenance evaluation of every read timeout in the terminal reader (TIMEOUT-ALL)",
-         "Structural necessary condition for 'never blocks past its timeout': every read after the first byte of an event carries a timeout that is a positive package constant or the caller's own; blocking reads are first on every path and outside loops. Decoding correctness is not decided.",
+ "C31": ("length-lower-bound analysis of every index into lists built from terminal bytes (SEQ-INDEX); constant/provenance evaluation of every read timeout in the terminal reader (TIMEOUT-ALL)",
+         "Structural necessary conditions: ('without crashing') every index or slice operation of the decoder on a list built from terminal bytes is within a length established on every path; ('never blocks past its timeout') every read after the first byte of an event carries a timeout that is a positive package constant or the caller's own; blocking reads are first on every path and outside loops. Decoding correctness is not decided.",
          "trusts go/ssa; unix reader only (reader_unix.go)"),
  "C33": ("who-may-construct rule for ui.Text values with a guarded single-segment idiom and an audit table (NF-BUILDER)",
          "Structural necessary condition for the normal-form clause inside pkg/ui: a Text is assembled by hand only inside the normalising API (TextBuilder, TextFromSegment, Concat), as a single non-empty segment, or at audited sites that preserve normal form; one known finding (StyleText, pinned by an existing unit test). Content equalities and the styledown round trip are not decided.",
@@ -77,7 +77,7 @@ CLAIMED = {
  "C40": ("ownership pairing for opened descriptors (OPEN-OWNED), must-call rule for returned cleanup functions on all success paths (CLEANUP-CALLED), close-before-overwrite dominance (REPLACE-CLOSES), spawn/join pairing (JOINED)",
          "Structural necessary conditions: every descriptor the evaluator opens is closed in place or recorded as owned by a form whose epilogue closes it; every cleanup function of a capture/pipe/file port is called or handed on on every path; a redirection closes the port it replaces; every goroutine is joined. Descriptor counts and the os.Pipe-failure path are not decided.",
          "trusts go/ssa; audited: process-lifetime /dev/null handle and black-hole drain"),
- "C42": ("constant evaluation of the open-flag table against the mode specification (FLAGS), taint-to-index check on the port table (FD-RANGE), guard check for self-duplication (DUP-SELF), ownership and close-before-overwrite rules (OPEN-OWNED, REPLACE-CLOSES), literal check for the closed port (SENDERR-NONNIL)",
+ "C42": ("constant evaluation of the open-flag table against the mode specification (FLAGS), taint-to-index check on the port table (FD-RANGE), guard check for self-duplication (DUP-SELF), ownership and close-before-overwrite rules (OPEN-OWNED, REPLACE-CLOSES), literal check for the closed port (SENDERR-NONNIL), totality of value I/O on installed ports: non-nil channel in every Port literal and closed-placeholder exclusion before every send (PORT-TOTAL)",
          "Structural necessary conditions: each redirection mode compiles to exactly its open(2) flags, evaluated fds are range-checked on both sides before indexing or growing the port table, n>&n does not reuse a port it just closed, files opened by a redirection are owned by the form, the replaced port is closed, and n>&- installs a port whose value output raises. Actual byte routing is not decided.",
          "trusts go/ssa and go/constant; flag values are read from package os for the analysed platform (thorough tier: five platforms)"),
  "C39": ("lockset dataflow over SSA with boolean-correlated path sensitivity (EVALER-LOCK, PTRVAR-LOCK); guarded-field set derived from the struct declaration (GUARDED-SET); table-free write-under-read-lock contradiction rule (RLOCK-WRITE)",
